@@ -107,6 +107,11 @@ def run(prop, tier, seed, replay=None):
     for i, (deep, sz) in enumerate([(1040, 700)] if quick else [(1040, 700), (1560, 760), (1030, 900), (2060, 700)]):
         big.append(dict(id="big-deepwide-%d" % i, seed=seed * 31 + i, shape="deepwide", deep=deep, size=sz, budget=rnd.choice([0, 40]), loss=rnd.choice([0, 2]),
                         dup=rnd.choice([0, 1]), expire=0, inject=0, create=0))
+    # an undecodable difference on the first (or second) page while the other node is one or two pages ahead (the fall-back has to
+    # fetch the whole first page, it cannot step below it)
+    for i, (deep, sz) in enumerate([(0, 700)] if quick else [(0, 700), (0, 900), (520, 700), (300, 760)]):
+        big.append(dict(id="big-lowwide-%d" % i, seed=seed * 37 + i, shape="lowwide", deep=deep, size=sz, budget=rnd.choice([0, 40]), loss=rnd.choice([0, 2]),
+                        dup=rnd.choice([0, 1]), expire=0, inject=0, create=0))
     for sz in ([150] if quick else [101, 150, 260]):
         big.append(dict(id="burst-%d" % sz, seed=seed, shape="burst", size=sz))
     if not quick:
